@@ -28,8 +28,13 @@ def _mk_graph(spec_):
     g.owner = spec_['owner']
     g.vars = dict(VARS)
     g.env_vars = set(ENV_VARS)
-    for u, lab in spec_['nodes'].items():
-        g.add_node(u, **lab)
+    order = list(spec_['nodes'])
+    if spec_.get('order') == 'largest-first':
+        # the node with the largest number is not the one added last
+        order = sorted(order, reverse=True)
+        order = order[:1] + sorted(order[1:])
+    for u in order:
+        g.add_node(u, **spec_['nodes'][u])
     for (u, v, lab) in spec_['edges']:
         g.add_edge(u, v, **lab)
     # both idioms: assign a new set, or add to the set the graph comes with
@@ -38,6 +43,9 @@ def _mk_graph(spec_):
     else:
         for u in spec_['initial']:
             g.initial_nodes.add(u)
+    if spec_.get('consistent'):
+        # every initial node is a node: nothing to remove
+        g.make_consistent()
     return g
 
 
@@ -125,16 +133,46 @@ def h_graph_to_logic(ctx):
             nodesref[int(p)] = w.term(p)
         edges.append((u, v, lab))
     gs['edges'] = edges
+    gs['order'] = ctx.p.get('order')
+    gs['consistent'] = ctx.p.get('consistent')
     g = _mk_graph(gs)
+    _convert_and_check(ctx, gs, g, edges, nodesref, allowed=None, tag='')
+    if ctx.p.get('again'):
+        # the graph grows (a node with the next larger power-of-two number, reached from and
+        # leading back to the first node) and is converted AGAIN into the same automaton:
+        # a refusal (ValueError: the node variable is declared already with another range)
+        # is fine, a conversion that returns must describe the graph as it is now
+        new = 4 if max(gs['nodes']) < 4 else 8
+        first = min(gs['nodes'])
+        gs2 = dict(gs)
+        gs2['nodes'] = dict(gs['nodes'])
+        gs2['nodes'][new] = {}
+        edges2 = edges + [(first, new, {}), (new, first, {})]
+        gs2['edges'] = edges2
+        gs2['initial'] = list(gs['initial']) + [new]
+        g.add_node(new)
+        g.add_edge(first, new)
+        g.add_edge(new, first)
+        g.initial_nodes.add(new)
+        _convert_and_check(ctx, gs2, g, edges2, nodesref,
+                           allowed=lambda e: isinstance(e, (ValueError, AssertionError)), tag=' [second conversion into the same automaton after the graph grew]')
+
+
+def _convert_and_check(ctx, gs, g, edges, nodesref, allowed, tag):
+    w = ctx.w
+    aut = w.aut
+    self_loops = ctx.p['self_loops']
+    ignore_initial = ctx.p['ignore_initial']
+    receptive = ctx.p.get('receptive', False)
     f = ctx.fn(lg.graph_to_logic)
     with warnings.catch_warnings():
         warnings.simplefilter('ignore')
         if ctx.p.get('positional'):
             # documented order: (g, nodevar, ignore_initial, receptive, self_loops, aut)
-            r = ctx.call(f, g, NODEVAR, ignore_initial, receptive, self_loops, aut, label='graph_to_logic')
+            r = ctx.call(f, g, NODEVAR, ignore_initial, receptive, self_loops, aut, label='graph_to_logic', allowed=allowed)
         else:
             r = ctx.call(f, g, NODEVAR, ignore_initial, receptive=receptive,
-                         self_loops=self_loops, aut=aut, label='graph_to_logic')
+                         self_loops=self_loops, aut=aut, label='graph_to_logic', allowed=allowed)
     den = denote.Den(aut.vars, w.z, nodes=nodesref)
     W = denote.W
     N = den.var_int(NODEVAR)
@@ -161,6 +199,9 @@ def h_graph_to_logic(ctx):
                 cs.append(spec.primed(w, a) if primed else a)
         return z3.And(*cs) if cs else z3.BoolVal(True)
 
+    L_, H_ = den.limits(NODEVAR)
+    w.oblige('graph_to_logic.post: every node number is a value of the node variable as declared' + tag,
+             z3.BoolVal(all(L_ <= u <= H_ for u in gs['nodes'])))
     owner = gs['owner']
     other = 'env' if owner == 'sys' else 'sys'
     act = w.term(aut.action[owner])
@@ -174,7 +215,7 @@ def h_graph_to_logic(ctx):
             step = z3.Or(step, Np == N)
         w.oblige(f'graph_to_logic.post: at node {u} the owner\'s action holds exactly for the labelled edges out of {u}'
                  + (' or a self-loop' if self_loops else '') + ', into a node whose label holds next'
-                 + ('' if outs or self_loops else ' (dead end: no step)'),
+                 + ('' if outs or self_loops else ' (dead end: no step)') + tag,
                  w.valid_goal(z3.Implies(N == lit(u), act == z3.And(step, flow))))
     if not receptive:
         w.oblige('graph_to_logic.post: the other player\'s action is unconstrained',
@@ -209,12 +250,72 @@ def h_graph_to_logic(ctx):
         want = labels_now
     else:
         want = z3.And(z3.Or(*[N == lit(u) for u in gs['initial']]), labels_now)
-    w.oblige('graph_to_logic.post: initial condition holds exactly at initial nodes whose labels are satisfied'
+    w.oblige('graph_to_logic.post: initial condition holds exactly at initial nodes whose labels are satisfied' + tag
              if not ignore_initial else
-             'graph_to_logic.post: with ignore_initial only the node labels constrain the initial condition',
+             'graph_to_logic.post: with ignore_initial only the node labels constrain the initial condition' + tag,
              w.valid_goal(ini == want))
     w.oblige('graph_to_logic.post: variable ownership: env = env_vars, sys = the rest, node variable to the owner',
              z3.BoolVal(set(aut.varlist['env']) == set(ENV_VARS) | ({NODEVAR} if owner == 'env' else set())
                         and set(aut.varlist['sys']) == (set(VARS) - set(ENV_VARS)) | ({NODEVAR} if owner == 'sys' else set())))
     w.canary('graph_to_logic canary: at the first node the action is the complement of the specified one',
              w.valid_goal(z3.Implies(N == lit(u), act == z3.Not(z3.And(step, flow)))))
+
+
+def second_conversion(backend):
+    """BOUNDED: a graph is converted into a caller-supplied automaton, grows by a
+    node whose number needs one more bit, and is converted AGAIN into the same
+    automaton.  A refusal (ValueError / AssertionError: the node variable is
+    declared already with another range) is fine; a conversion that returns must
+    describe the graph as it is now: the new node is a value of the node
+    variable, the owner's action allows the edges into and out of it, and the
+    initial condition holds at it."""
+    def run():
+        import omega.symbolic.temporal as trl
+        fails = list()
+        n = 0
+        for owner in ('sys', 'env'):
+            for self_loops in (False, True):
+                for n0, new in ((4, 4), (2, 2), (3, 5), (8, 9)):
+                    n += 1
+                    g = automata.TransitionSystem()
+                    g.owner = owner
+                    g.vars = dict(x='bool')
+                    g.env_vars = {'x'}
+                    for u in range(n0):
+                        g.add_edge(u, (u + 1) % n0)
+                    g.initial_nodes.add(0)
+                    aut = trl.Automaton()
+                    if backend == 'autoref':
+                        import dd.autoref as autoref
+                        aut.bdd = autoref.BDD()
+                    desc = dict(owner=owner, self_loops=self_loops, nodes_first=n0, node_added=new, backend=backend)
+                    try:
+                        with warnings.catch_warnings():
+                            warnings.simplefilter('ignore')
+                            lg.graph_to_logic(g, NODEVAR, False, self_loops=self_loops, aut=aut)
+                            g.add_edge(0, new)
+                            g.add_edge(new, 0)
+                            g.initial_nodes.add(new)
+                            try:
+                                lg.graph_to_logic(g, NODEVAR, False, self_loops=self_loops, aut=aut)
+                            except (ValueError, AssertionError):
+                                continue          # refused: fine
+                    except Exception as e:
+                        fails.append(dict(name='graph_to_logic into a caller-supplied automaton runs', error=repr(e)[:200], **desc))
+                        continue
+                    d = aut.vars[NODEVAR]
+                    lim = (0, 2 ** d['width'] - 1) if not d['signed'] else (-2 ** (d['width'] - 1), 2 ** (d['width'] - 1) - 1)
+                    ok = lim[0] <= new <= lim[1]
+                    if ok:
+                        act = aut.action[owner]
+                        for a, b in ((0, new), (new, 0)):
+                            v = aut.let({NODEVAR: a, NODEVAR + "'": b}, act)
+                            ok = ok and v != aut.false
+                        ok = ok and aut.let({NODEVAR: new}, aut.init[owner]) != aut.false
+                    if not ok:
+                        fails.append(dict(name='a second conversion into the same automaton that returns describes the graph as it is now (new node representable, its edges allowed, initial there)',
+                                          node_variable=str({k: d[k] for k in ('dom', 'width', 'signed')}), **desc))
+        return dict(records=[], stats=dict(), functions={
+            'omega.symbolic.logicizer.graph_to_logic': dict(source_lines=0, cut={}, stubs=[], dropped='run natively on real dd: bounded')},
+            bounded=dict(evaluations=n, failures=fails[:6], backend=backend))
+    return run
